@@ -7,6 +7,7 @@ package vhook
 
 import (
 	"fmt"
+	"io"
 	"os"
 	"reflect"
 	"sort"
@@ -21,6 +22,20 @@ func Step() {
 	if StepFn != nil {
 		StepFn()
 	}
+}
+
+// ---- reader hook -------------------------------------------------------
+
+// ReaderFn, if non-nil, may replace the reader a record scanner is about to be
+// built on (standard input, an operand file, getline < file, a command's
+// output, a string being split in CSV mode). Returning r itself leaves it alone.
+var ReaderFn func(r io.Reader) io.Reader
+
+func WrapReader(r io.Reader) io.Reader {
+	if ReaderFn != nil {
+		return ReaderFn(r)
+	}
+	return r
 }
 
 // ---- map iteration order ------------------------------------------------
